@@ -117,8 +117,10 @@ def build(desc, root):
             _write_plain(os.path.join(root, "signac_project_document.json"), {"existing": 1})
 
         def act(tracing):
+            import contextlib
+            import io as _io
             from signac.migration import apply_migrations
-            with tracing():
+            with tracing(), contextlib.redirect_stderr(_io.StringIO()):
                 apply_migrations(root)
         return "SMigration", act
     if kind == "cache":
